@@ -40,6 +40,23 @@ fn ok<T: Send + Sync>() {}
 '''
 
 
+POSITIVE = r"""// GENERATED: `gdsl::%s::%s<K, N, E>` must be Send + Sync for ALL payload types that are Send + Sync
+#![allow(dead_code)]
+use std::fmt::Display;
+use std::hash::Hash;
+fn ok<T: Send + Sync>() {}
+fn positive<K: Clone + Hash + Display + Eq + Send + Sync, N: Clone + Send + Sync, E: Clone + Send + Sync>() {
+    ok::<gdsl::%s::%s<K, N, E>>();
+}
+fn borrowed<'a>(_k: &'a str) {
+    // payloads that borrow (not 'static) are Send + Sync too
+    ok::<gdsl::%s::%s<&'a str, &'a u8, &'a u16>>();
+}
+fn main() {}
+"""
+POSITIVE = POSITIVE.replace("%s::%s", "{0}::{1}").replace("%", "%%").replace("{0}::{1}", "%(fl)s::%(t)s")
+
+
 def gen_probe(dirpath):
     os.makedirs(os.path.join(dirpath, "src"), exist_ok=True)
     with open(os.path.join(dirpath, "Cargo.toml"), "w") as f:
@@ -49,12 +66,13 @@ def gen_probe(dirpath):
     with open(os.path.join(dirpath, ".cargo", "config.toml"), "w") as f:
         f.write("[net]\noffline = true\n")
     src = [PROBE_HEAD]
-    # positive generic obligations: must type-check for EVERY K, N, E that are Send + Sync
+    # positive generic obligations: must type-check for EVERY K, N, E that are Send + Sync (no other bound, in particular no
+    # 'static): one small binary per obligation, so that a failing one is reported by name
+    os.makedirs(os.path.join(dirpath, "src", "bin"), exist_ok=True)
     for fl in ("sync_digraph", "sync_ungraph"):
-        src.append("fn positive_%s<K: Clone + Hash + fmt::Display + Eq + Send + Sync, N: Clone + Send + Sync, E: Clone + Send + Sync>() {" % fl)
         for t in TYPES:
-            src.append("    ok::<gdsl::%s::%s<K, N, E>>();" % (fl, t))
-        src.append("}")
+            with open(os.path.join(dirpath, "src", "bin", "pos_%s_%s.rs" % (fl, t.lower())), "w") as f:
+                f.write(POSITIVE % dict(fl=fl, t=t))
     src.append("fn main() {")
     for fl in FLAVOURS:
         for t in TYPES:
@@ -72,7 +90,7 @@ def run_probe():
     d = os.path.join(CACHE, "probes", "c16")
     gen_probe(d)
     env = {"RUSTFLAGS": vlib.RUSTFLAGS, "CARGO_NET_OFFLINE": "true", "CARGO_TARGET_DIR": os.path.join(CACHE, "target")}
-    rc, out = vlib.sh("cargo run --release --offline 2>&1", cwd=d, env=env, timeout=1800)
+    rc, out = vlib.sh("cargo run --release --offline --bin gdsl_c16_probe 2>&1", cwd=d, env=env, timeout=1800)
     if rc != 0:
         return None, out
     rows = {}
@@ -81,6 +99,20 @@ def run_probe():
         if len(t) == 7 and t[0] in FLAVOURS:
             rows[(t[0], t[1], t[2], t[3], t[4])] = (int(t[5]), int(t[6]))
     return rows, out
+
+
+def run_positive():
+    """type-check every generic positive obligation on its own; returns the list of (flavour, type, rustc message) that fail"""
+    d = os.path.join(CACHE, "probes", "c16")
+    env = {"RUSTFLAGS": vlib.RUSTFLAGS, "CARGO_NET_OFFLINE": "true", "CARGO_TARGET_DIR": os.path.join(CACHE, "target")}
+    failed = []
+    for fl in ("sync_digraph", "sync_ungraph"):
+        for t in TYPES:
+            rc, out = vlib.sh("cargo check --release --offline --bin pos_%s_%s 2>&1" % (fl, t.lower()), cwd=d, env=env, timeout=600)
+            if rc != 0:
+                errs = [l for l in out.splitlines() if l.startswith("error")]
+                failed.append((fl, t, "; ".join(errs[:3])[:400]))
+    return failed
 
 
 def model_table():
